@@ -1,15 +1,17 @@
-package cblas128
+// Code generated from ../blas64/zz_verif_c01_w.go by /verif/harness/blas/gonum/gen_w.py; DO NOT EDIT.
+
+package blas32
 
 import (
 	"gonum.org/v1/gonum/blas"
 	"gonum.org/v1/gonum/blas/gonum"
 )
 
-// C01, wrapper package cblas128: every wrapper function passes exactly the right flags, dimensions,
+// C01, wrapper package blas32: every wrapper function passes exactly the right flags, dimensions,
 // strides and increments of its struct arguments to the implementation: the wrapped call and the
-// direct call gonum.Implementation{}.Zxxx(...) on a copy of the same (symbolic) data leave every
+// direct call gonum.Implementation{}.Sxxx(...) on a copy of the same (symbolic) data leave every
 // backing cell of every operand bit-identical and return identical results.
-// The complex64 twin (package cblas64) is generated by /verif/harness/blas/gonum/gen_w.py.
+// (blas32: Rot and Rotm take n explicitly; DDot and SDDot are covered by VerifC01_Blas32DDot.)
 
 func verifC01wAbs(x int) int {
 	if x < 0 {
@@ -81,30 +83,18 @@ func verifC01wSide(name string) blas.Side {
 }
 
 // two copies of the same symbolic data: w is handed to the wrapper, d to the direct call
-func verifC01wPair(name string, n int) (w, d []complex128) {
-	w = verifComplexes(name, n)
-	d = append([]complex128(nil), w...)
+func verifC01wPair(name string, n int) (w, d []float32) {
+	w = verifFloat32s(name, n)
+	d = append([]float32(nil), w...)
 	return w, d
 }
 
-func verifC01wSameF(a, b float64) bool { return verifSame(a, b) }
+func verifC01wSameF(a, b float32) bool { return verifSame(float64(a), float64(b)) }
 
-func verifC01wSameC(a, b complex128) bool {
-	return verifAnd(verifC01wSameF(real(a), real(b)), verifC01wSameF(imag(a), imag(b)))
-}
-
-func verifC01wSameAll(w, d []complex128, msg string) {
+func verifC01wSameAll(w, d []float32, msg string) {
 	for i := range w {
-		verifAssert(verifC01wSameC(w[i], d[i]), msg)
+		verifAssert(verifC01wSameF(w[i], d[i]), msg)
 	}
-}
-
-func verifC01wCmplx(name string) complex128 {
-	return complex(verifFloat(name+".re"), verifFloat(name+".im"))
-}
-
-func verifC01wNonZero(z complex128) {
-	verifAssume(verifOr(real(z) != 0, imag(z) != 0))
 }
 
 func verifC01wVlen(n, inc, slack int) int {
@@ -135,14 +125,14 @@ func verifC01wBandLen(rows, width, ld, slack int) int {
 	return ld*(rows-1) + width + slack
 }
 
-// VerifC01_Cblas128Vector: the Level 1 wrappers over Vector{N, Data, Inc}.
-func VerifC01_Cblas128Vector() {
+// VerifC01_Blas32Vector: the Level 1 wrappers over Vector{N, Data, Inc}.
+func VerifC01_Blas32Vector() {
 	impl := gonum.Implementation{}
 	r := verifChoose("routine", 0, 9)
 	n := verifChoose("n", 0, verifParam("wn", 2)+1)
 	slack := verifChoose("slack", 0, 1)
 	incX, incY := 1, 1
-	if r >= 5 { // Nrm2, Asum, Iamax, Scal, Dscal: the wrappers panic for a negative increment
+	if r >= 6 { // Nrm2, Asum, Iamax, Scal: the wrappers panic for a negative increment
 		incX = verifChoose("incX", 1, 2)
 	} else {
 		incX, incY = verifC01wIncs()
@@ -150,48 +140,51 @@ func VerifC01_Cblas128Vector() {
 	xw, xd := verifC01wPair("x", verifC01wVlen(n, incX, slack))
 	yw, yd := verifC01wPair("y", verifC01wVlen(n, incY, slack))
 	x, y := Vector{N: n, Data: xw, Inc: incX}, Vector{N: n, Data: yw, Inc: incY}
-	alpha := verifC01wCmplx("alpha")
+	alpha, c, s := verifFloat32("alpha"), verifFloat32("c"), verifFloat32("s")
 	switch r {
 	case 0:
-		verifAssert(verifC01wSameC(Dotu(x, y), impl.Zdotu(n, xd, incX, yd, incY)), "Dotu == Zdotu")
+		verifAssert(verifC01wSameF(Dot(x, y), impl.Sdot(n, xd, incX, yd, incY)), "Dot == Sdot")
 	case 1:
-		verifAssert(verifC01wSameC(Dotc(x, y), impl.Zdotc(n, xd, incX, yd, incY)), "Dotc == Zdotc")
-	case 2:
 		Swap(x, y)
-		impl.Zswap(n, xd, incX, yd, incY)
-	case 3:
+		impl.Sswap(n, xd, incX, yd, incY)
+	case 2:
 		Copy(x, y)
-		impl.Zcopy(n, xd, incX, yd, incY)
-	case 4:
+		impl.Scopy(n, xd, incX, yd, incY)
+	case 3:
 		Axpy(alpha, x, y)
-		impl.Zaxpy(n, alpha, xd, incX, yd, incY)
+		impl.Saxpy(n, alpha, xd, incX, yd, incY)
+	case 4:
+		Rot(n, x, y, c, s)
+		impl.Srot(n, xd, incX, yd, incY, c, s)
 	case 5:
-		verifAssert(verifC01wSameF(Nrm2(x), impl.Dznrm2(n, xd, incX)), "Nrm2 == Dznrm2")
+		p := blas.SrotmParams{Flag: blas.Flag(verifChoose("flag", -2, 1))}
+		copy(p.H[:], verifFloat32s("h", 4))
+		Rotm(n, x, y, p)
+		impl.Srotm(n, xd, incX, yd, incY, p)
 	case 6:
-		verifAssert(verifC01wSameF(Asum(x), impl.Dzasum(n, xd, incX)), "Asum == Dzasum")
+		verifAssert(verifC01wSameF(Nrm2(x), impl.Snrm2(n, xd, incX)), "Nrm2 == Snrm2")
 	case 7:
-		verifAssert(Iamax(x) == impl.Izamax(n, xd, incX), "Iamax == Izamax")
+		verifAssert(verifC01wSameF(Asum(x), impl.Sasum(n, xd, incX)), "Asum == Sasum")
 	case 8:
-		Scal(alpha, x)
-		impl.Zscal(n, alpha, xd, incX)
+		verifAssert(Iamax(x) == impl.Isamax(n, xd, incX), "Iamax == Isamax")
 	default:
-		Dscal(real(alpha), x)
-		impl.Zdscal(n, real(alpha), xd, incX)
+		Scal(alpha, x)
+		impl.Sscal(n, alpha, xd, incX)
 	}
 	verifC01wSameAll(xw, xd, "Level 1 wrapper: x as after the direct call")
 	verifC01wSameAll(yw, yd, "Level 1 wrapper: y as after the direct call")
 	verifReach("end")
 }
 
-// VerifC01_Cblas128VectorPanics: documented argument checks of the Level 1 wrappers: a negative
-// increment (Nrm2, Asum, Iamax, Scal, Dscal) and x.N != y.N (Dotu, Dotc, Swap, Copy, Axpy) panic
+// VerifC01_Blas32VectorPanics: documented argument checks of the Level 1 wrappers: a negative
+// increment (Nrm2, Asum, Iamax, Scal) and x.N != y.N (Dot, Swap, Copy, Axpy, DDot, SDDot) panic
 // before anything is written.
-func VerifC01_Cblas128VectorPanics() {
+func VerifC01_Blas32VectorPanics() {
 	r := verifChoose("routine", 0, 9)
 	n := verifChoose("n", 0, 2)
 	incX, incY := 1, 1
 	ny := n
-	if r >= 5 {
+	if r >= 6 {
 		incX = -verifChoose("negIncX", 1, 2)
 	} else {
 		ny = n + 1
@@ -199,33 +192,33 @@ func VerifC01_Cblas128VectorPanics() {
 	xw, xd := verifC01wPair("x", verifC01wVlen(n, incX, 0))
 	yw, yd := verifC01wPair("y", verifC01wVlen(ny, incY, 0))
 	x, y := Vector{N: n, Data: xw, Inc: incX}, Vector{N: ny, Data: yw, Inc: incY}
-	alpha := verifC01wCmplx("alpha")
+	alpha := verifFloat32("alpha")
 	panicked, fault, msg := verifCatch(func() {
 		switch r {
 		case 0:
-			Dotu(x, y)
+			Dot(x, y)
 		case 1:
-			Dotc(x, y)
-		case 2:
 			Swap(x, y)
-		case 3:
+		case 2:
 			Copy(x, y)
-		case 4:
+		case 3:
 			Axpy(alpha, x, y)
+		case 4:
+			DDot(x, y)
 		case 5:
-			Nrm2(x)
+			SDDot(alpha, x, y)
 		case 6:
-			Asum(x)
+			Nrm2(x)
 		case 7:
-			Iamax(x)
+			Asum(x)
 		case 8:
-			Scal(alpha, x)
+			Iamax(x)
 		default:
-			Dscal(real(alpha), x)
+			Scal(alpha, x)
 		}
 	})
 	verifAssert(panicked && !fault, "Level 1 wrapper: explicit panic for a negative increment / length mismatch")
-	if r >= 5 {
+	if r >= 6 {
 		verifAssert(msg == negInc, "Level 1 wrapper: panic message negInc")
 	} else {
 		verifAssert(msg == badLength, "Level 1 wrapper: panic message badLength")
@@ -235,17 +228,46 @@ func VerifC01_Cblas128VectorPanics() {
 	verifReach("end")
 }
 
-// VerifC01_Cblas128General: Gemv, Geru, Gerc, Gemm over General{Rows, Cols, Data, Stride}.
-func VerifC01_Cblas128General() {
+// VerifC01_Blas32Rotg: the scalar wrappers Rotg and Rotmg pass their arguments through in order.
+// Both executions share their inputs; magnitudes are bounded so that no rescaling loop of Drotmg
+// runs more than once and Drotg stays in its unscaled range.
+func VerifC01_Blas32Rotg() {
+	impl := gonum.Implementation{}
+	a, b, c, d := verifFloat32("a"), verifFloat32("b"), verifFloat32("c"), verifFloat32("d")
+	if verifChoose("routine", 0, 1) == 0 {
+		verifAssume(a >= 1.0/4096)
+		verifAssume(a <= 4096)
+		verifAssume(b >= 1.0/4096)
+		verifAssume(b <= 4096)
+		verifAssume(verifAnd(c != 0, d != 0))
+		pw, w1, w2, w3 := Rotmg(a, b, c, d)
+		pd, d1, d2, d3 := impl.Srotmg(a, b, c, d)
+		verifAssert(pw.Flag == pd.Flag, "Rotmg: flag")
+		for i := range pw.H {
+			verifAssert(verifC01wSameF(pw.H[i], pd.H[i]), "Rotmg: H")
+		}
+		verifAssert(verifAnd(verifC01wSameF(w1, d1), verifAnd(verifC01wSameF(w2, d2), verifC01wSameF(w3, d3))), "Rotmg: d1, d2, x1")
+	} else {
+		verifAssume(verifAnd(a >= 1, a <= 2))
+		verifAssume(verifAnd(b >= -4, b <= -3))
+		w1, w2, w3, w4 := Rotg(a, b)
+		d1, d2, d3, d4 := impl.Srotg(a, b)
+		verifAssert(verifAnd(verifAnd(verifC01wSameF(w1, d1), verifC01wSameF(w2, d2)), verifAnd(verifC01wSameF(w3, d3), verifC01wSameF(w4, d4))), "Rotg: c, s, r, z")
+	}
+	verifReach("end")
+}
+
+// VerifC01_Blas32General: Gemv, Ger, Gemm over General{Rows, Cols, Data, Stride}.
+func VerifC01_Blas32General() {
 	impl := gonum.Implementation{}
 	maxN := verifParam("wn", 2)
-	r := verifChoose("routine", 0, 3)
+	r := verifChoose("routine", 0, 2)
 	m := verifChoose("m", 0, maxN)
 	n := verifChoose("n", 0, maxN)
 	padA := verifChoose("padA", 0, 1)
-	alpha, beta := verifC01wCmplx("alpha"), verifC01wCmplx("beta")
+	alpha, beta := verifFloat32("alpha"), verifFloat32("beta")
 	switch r {
-	case 0, 1, 2:
+	case 0, 1:
 		t := blas.NoTrans
 		if r == 0 {
 			t = verifC01wTrans("trans")
@@ -253,28 +275,24 @@ func VerifC01_Cblas128General() {
 		incX, incY := verifC01wIncs()
 		lda := verifC01wLd(n, padA)
 		lenX, lenY := n, m // Gemv NoTrans
-		if r != 0 || t != blas.NoTrans {
-			lenX, lenY = m, n // Geru, Gerc: x has m, y has n elements
+		if r == 1 || t != blas.NoTrans {
+			lenX, lenY = m, n // Ger: x has m, y has n elements
 		}
 		aw, ad := verifC01wPair("a", verifC01wMlen(m, n, lda, padA))
 		xw, xd := verifC01wPair("x", verifC01wVlen(lenX, incX, padA))
 		yw, yd := verifC01wPair("y", verifC01wVlen(lenY, incY, padA))
 		a := General{Rows: m, Cols: n, Data: aw, Stride: lda}
 		x, y := Vector{N: lenX, Data: xw, Inc: incX}, Vector{N: lenY, Data: yw, Inc: incY}
-		switch r {
-		case 0:
+		if r == 0 {
 			Gemv(t, alpha, a, x, beta, y)
-			impl.Zgemv(t, m, n, alpha, ad, lda, xd, incX, beta, yd, incY)
-		case 1:
-			Geru(alpha, x, y, a)
-			impl.Zgeru(m, n, alpha, xd, incX, yd, incY, ad, lda)
-		default:
-			Gerc(alpha, x, y, a)
-			impl.Zgerc(m, n, alpha, xd, incX, yd, incY, ad, lda)
+			impl.Sgemv(t, m, n, alpha, ad, lda, xd, incX, beta, yd, incY)
+		} else {
+			Ger(alpha, x, y, a)
+			impl.Sger(m, n, alpha, xd, incX, yd, incY, ad, lda)
 		}
-		verifC01wSameAll(aw, ad, "Gemv/Geru/Gerc: A as after the direct call")
-		verifC01wSameAll(xw, xd, "Gemv/Geru/Gerc: x as after the direct call")
-		verifC01wSameAll(yw, yd, "Gemv/Geru/Gerc: y as after the direct call")
+		verifC01wSameAll(aw, ad, "Gemv/Ger: A as after the direct call")
+		verifC01wSameAll(xw, xd, "Gemv/Ger: x as after the direct call")
+		verifC01wSameAll(yw, yd, "Gemv/Ger: y as after the direct call")
 	default:
 		tA, tB := verifC01wTrans("transA"), verifC01wTrans("transB")
 		k := verifChoose("k", 0, maxN)
@@ -292,7 +310,7 @@ func VerifC01_Cblas128General() {
 		bw, bd := verifC01wPair("b", verifC01wMlen(rb, cb, ldb, padB))
 		cw, cd := verifC01wPair("c", verifC01wMlen(m, n, ldc, padC))
 		Gemm(tA, tB, alpha, General{Rows: ra, Cols: ca, Data: aw, Stride: lda}, General{Rows: rb, Cols: cb, Data: bw, Stride: ldb}, beta, General{Rows: m, Cols: n, Data: cw, Stride: ldc})
-		impl.Zgemm(tA, tB, m, n, k, alpha, ad, lda, bd, ldb, beta, cd, ldc)
+		impl.Sgemm(tA, tB, m, n, k, alpha, ad, lda, bd, ldb, beta, cd, ldc)
 		verifC01wSameAll(aw, ad, "Gemm: A as after the direct call")
 		verifC01wSameAll(bw, bd, "Gemm: B as after the direct call")
 		verifC01wSameAll(cw, cd, "Gemm: C as after the direct call")
@@ -300,8 +318,8 @@ func VerifC01_Cblas128General() {
 	verifReach("end")
 }
 
-// VerifC01_Cblas128Band: Gbmv over Band{Rows, Cols, KL, KU, Data, Stride}.
-func VerifC01_Cblas128Band() {
+// VerifC01_Blas32Band: Gbmv over Band{Rows, Cols, KL, KU, Data, Stride}.
+func VerifC01_Blas32Band() {
 	impl := gonum.Implementation{}
 	maxN := verifParam("wn", 2)
 	t := verifC01wTrans("trans")
@@ -327,18 +345,18 @@ func VerifC01_Cblas128Band() {
 	aw, ad := verifC01wPair("a", la)
 	xw, xd := verifC01wPair("x", verifC01wVlen(lenX, incX, pad))
 	yw, yd := verifC01wPair("y", verifC01wVlen(lenY, incY, pad))
-	alpha, beta := verifC01wCmplx("alpha"), verifC01wCmplx("beta")
+	alpha, beta := verifFloat32("alpha"), verifFloat32("beta")
 	Gbmv(t, alpha, Band{Rows: m, Cols: n, KL: kL, KU: kU, Data: aw, Stride: lda}, Vector{N: lenX, Data: xw, Inc: incX}, beta, Vector{N: lenY, Data: yw, Inc: incY})
-	impl.Zgbmv(t, m, n, kL, kU, alpha, ad, lda, xd, incX, beta, yd, incY)
+	impl.Sgbmv(t, m, n, kL, kU, alpha, ad, lda, xd, incX, beta, yd, incY)
 	verifC01wSameAll(aw, ad, "Gbmv: A as after the direct call")
 	verifC01wSameAll(xw, xd, "Gbmv: x as after the direct call")
 	verifC01wSameAll(yw, yd, "Gbmv: y as after the direct call")
 	verifReach("end")
 }
 
-// VerifC01_Cblas128Triangular: Trmv, Trsv (routine 0, 1), Tbmv, Tbsv (2, 3), Tpmv, Tpsv (4, 5) over
+// VerifC01_Blas32Triangular: Trmv, Trsv (routine 0, 1), Tbmv, Tbsv (2, 3), Tpmv, Tpsv (4, 5) over
 // Triangular / TriangularBand / TriangularPacked, and Trmm, Trsm (6, 7) over Triangular + General.
-func VerifC01_Cblas128Triangular() {
+func VerifC01_Blas32Triangular() {
 	impl := gonum.Implementation{}
 	maxN := verifParam("wn", 2)
 	r := verifChoose("routine", 0, 7)
@@ -359,20 +377,20 @@ func VerifC01_Cblas128Triangular() {
 		lda, ldb := verifC01wLd(ka, pad), verifC01wLd(n, padB)
 		aw, ad := verifC01wPair("a", verifC01wMlen(ka, ka, lda, pad))
 		bw, bd := verifC01wPair("b", verifC01wMlen(m, n, ldb, padB))
-		alpha := verifC01wCmplx("alpha")
+		alpha := verifFloat32("alpha")
 		if solve && dg == blas.NonUnit && m > 0 && n > 0 {
 			for i := 0; i < ka; i++ {
-				verifC01wNonZero(aw[i*lda+i])
+				verifAssume(aw[i*lda+i] != 0)
 			}
 		}
 		a := Triangular{Uplo: ul, Diag: dg, N: ka, Data: aw, Stride: lda}
 		b := General{Rows: m, Cols: n, Data: bw, Stride: ldb}
 		if solve {
 			Trsm(s, t, alpha, a, b)
-			impl.Ztrsm(s, ul, t, dg, m, n, alpha, ad, lda, bd, ldb)
+			impl.Strsm(s, ul, t, dg, m, n, alpha, ad, lda, bd, ldb)
 		} else {
 			Trmm(s, t, alpha, a, b)
-			impl.Ztrmm(s, ul, t, dg, m, n, alpha, ad, lda, bd, ldb)
+			impl.Strmm(s, ul, t, dg, m, n, alpha, ad, lda, bd, ldb)
 		}
 		verifC01wSameAll(aw, ad, "Trmm/Trsm: A as after the direct call")
 		verifC01wSameAll(bw, bd, "Trmm/Trsm: B as after the direct call")
@@ -382,23 +400,23 @@ func VerifC01_Cblas128Triangular() {
 	incX := verifC01wInc("incX")
 	xw, xd := verifC01wPair("x", verifC01wVlen(n, incX, pad))
 	x := Vector{N: n, Data: xw, Inc: incX}
-	var aw, ad []complex128
+	var aw, ad []float32
 	switch r / 2 {
 	case 0:
 		lda := verifC01wLd(n, pad)
 		aw, ad = verifC01wPair("a", verifC01wMlen(n, n, lda, pad))
 		if solve && dg == blas.NonUnit {
 			for i := 0; i < n; i++ {
-				verifC01wNonZero(aw[i*lda+i])
+				verifAssume(aw[i*lda+i] != 0)
 			}
 		}
 		a := Triangular{Uplo: ul, Diag: dg, N: n, Data: aw, Stride: lda}
 		if solve {
 			Trsv(t, a, x)
-			impl.Ztrsv(ul, t, dg, n, ad, lda, xd, incX)
+			impl.Strsv(ul, t, dg, n, ad, lda, xd, incX)
 		} else {
 			Trmv(t, a, x)
-			impl.Ztrmv(ul, t, dg, n, ad, lda, xd, incX)
+			impl.Strmv(ul, t, dg, n, ad, lda, xd, incX)
 		}
 	case 1:
 		k := verifChoose("k", 0, 1)
@@ -407,30 +425,30 @@ func VerifC01_Cblas128Triangular() {
 		if solve && dg == blas.NonUnit {
 			for i := 0; i < n; i++ {
 				if ul == blas.Upper {
-					verifC01wNonZero(aw[i*lda])
+					verifAssume(aw[i*lda] != 0)
 				} else {
-					verifC01wNonZero(aw[i*lda+k])
+					verifAssume(aw[i*lda+k] != 0)
 				}
 			}
 		}
 		a := TriangularBand{Uplo: ul, Diag: dg, N: n, K: k, Data: aw, Stride: lda}
 		if solve {
 			Tbsv(t, a, x)
-			impl.Ztbsv(ul, t, dg, n, k, ad, lda, xd, incX)
+			impl.Stbsv(ul, t, dg, n, k, ad, lda, xd, incX)
 		} else {
 			Tbmv(t, a, x)
-			impl.Ztbmv(ul, t, dg, n, k, ad, lda, xd, incX)
+			impl.Stbmv(ul, t, dg, n, k, ad, lda, xd, incX)
 		}
 	default:
 		aw, ad = verifC01wPair("a", n*(n+1)/2+pad)
 		if solve && dg == blas.NonUnit {
 			for i, p := 0, 0; i < n; i++ { // packed diagonal positions
 				if ul == blas.Upper {
-					verifC01wNonZero(aw[p])
+					verifAssume(aw[p] != 0)
 					p += n - i
 				} else {
 					p += i
-					verifC01wNonZero(aw[p])
+					verifAssume(aw[p] != 0)
 					p++
 				}
 			}
@@ -438,10 +456,10 @@ func VerifC01_Cblas128Triangular() {
 		a := TriangularPacked{Uplo: ul, Diag: dg, N: n, Data: aw}
 		if solve {
 			Tpsv(t, a, x)
-			impl.Ztpsv(ul, t, dg, n, ad, xd, incX)
+			impl.Stpsv(ul, t, dg, n, ad, xd, incX)
 		} else {
 			Tpmv(t, a, x)
-			impl.Ztpmv(ul, t, dg, n, ad, xd, incX)
+			impl.Stpmv(ul, t, dg, n, ad, xd, incX)
 		}
 	}
 	verifC01wSameAll(aw, ad, "triangular wrapper: A as after the direct call")
@@ -449,9 +467,9 @@ func VerifC01_Cblas128Triangular() {
 	verifReach("end")
 }
 
-// VerifC01_Cblas128Hermitian: Hemv, Her, Her2 (routine 0..2) over Hermitian, Hbmv (3) over HermitianBand,
-// Hpmv, Hpr, Hpr2 (4..6) over HermitianPacked.
-func VerifC01_Cblas128Hermitian() {
+// VerifC01_Blas32Symmetric: Symv, Syr, Syr2 (routine 0..2) over Symmetric, Sbmv (3) over SymmetricBand,
+// Spmv, Spr, Spr2 (4..6) over SymmetricPacked.
+func VerifC01_Blas32Symmetric() {
 	impl := gonum.Implementation{}
 	r := verifChoose("routine", 0, 6)
 	ul := verifC01wUplo("uplo")
@@ -461,64 +479,62 @@ func VerifC01_Cblas128Hermitian() {
 	xw, xd := verifC01wPair("x", verifC01wVlen(n, incX, pad))
 	yw, yd := verifC01wPair("y", verifC01wVlen(n, incY, pad))
 	x, y := Vector{N: n, Data: xw, Inc: incX}, Vector{N: n, Data: yw, Inc: incY}
-	alpha, beta := verifC01wCmplx("alpha"), verifC01wCmplx("beta")
-	var aw, ad []complex128
+	alpha, beta := verifFloat32("alpha"), verifFloat32("beta")
+	var aw, ad []float32
 	switch {
 	case r <= 2:
 		lda := verifC01wLd(n, pad)
 		aw, ad = verifC01wPair("a", verifC01wMlen(n, n, lda, pad))
-		a := Hermitian{Uplo: ul, N: n, Data: aw, Stride: lda}
+		a := Symmetric{Uplo: ul, N: n, Data: aw, Stride: lda}
 		switch r {
 		case 0:
-			Hemv(alpha, a, x, beta, y)
-			impl.Zhemv(ul, n, alpha, ad, lda, xd, incX, beta, yd, incY)
+			Symv(alpha, a, x, beta, y)
+			impl.Ssymv(ul, n, alpha, ad, lda, xd, incX, beta, yd, incY)
 		case 1:
-			Her(real(alpha), x, a)
-			impl.Zher(ul, n, real(alpha), xd, incX, ad, lda)
+			Syr(alpha, x, a)
+			impl.Ssyr(ul, n, alpha, xd, incX, ad, lda)
 		default:
-			Her2(alpha, x, y, a)
-			impl.Zher2(ul, n, alpha, xd, incX, yd, incY, ad, lda)
+			Syr2(alpha, x, y, a)
+			impl.Ssyr2(ul, n, alpha, xd, incX, yd, incY, ad, lda)
 		}
 	case r == 3:
 		k := verifChoose("k", 0, 1)
 		lda := k + 1 + pad
 		aw, ad = verifC01wPair("a", verifC01wBandLen(n, k+1, lda, pad))
-		Hbmv(alpha, HermitianBand{Uplo: ul, N: n, K: k, Data: aw, Stride: lda}, x, beta, y)
-		impl.Zhbmv(ul, n, k, alpha, ad, lda, xd, incX, beta, yd, incY)
+		Sbmv(alpha, SymmetricBand{Uplo: ul, N: n, K: k, Data: aw, Stride: lda}, x, beta, y)
+		impl.Ssbmv(ul, n, k, alpha, ad, lda, xd, incX, beta, yd, incY)
 	default:
 		aw, ad = verifC01wPair("a", n*(n+1)/2+pad)
-		a := HermitianPacked{Uplo: ul, N: n, Data: aw}
+		a := SymmetricPacked{Uplo: ul, N: n, Data: aw}
 		switch r {
 		case 4:
-			Hpmv(alpha, a, x, beta, y)
-			impl.Zhpmv(ul, n, alpha, ad, xd, incX, beta, yd, incY)
+			Spmv(alpha, a, x, beta, y)
+			impl.Sspmv(ul, n, alpha, ad, xd, incX, beta, yd, incY)
 		case 5:
-			Hpr(real(alpha), x, a)
-			impl.Zhpr(ul, n, real(alpha), xd, incX, ad)
+			Spr(alpha, x, a)
+			impl.Sspr(ul, n, alpha, xd, incX, ad)
 		default:
-			Hpr2(alpha, x, y, a)
-			impl.Zhpr2(ul, n, alpha, xd, incX, yd, incY, ad)
+			Spr2(alpha, x, y, a)
+			impl.Sspr2(ul, n, alpha, xd, incX, yd, incY, ad)
 		}
 	}
-	verifC01wSameAll(aw, ad, "Hermitian wrapper: A as after the direct call")
-	verifC01wSameAll(xw, xd, "Hermitian wrapper: x as after the direct call")
-	verifC01wSameAll(yw, yd, "Hermitian wrapper: y as after the direct call")
+	verifC01wSameAll(aw, ad, "symmetric wrapper: A as after the direct call")
+	verifC01wSameAll(xw, xd, "symmetric wrapper: x as after the direct call")
+	verifC01wSameAll(yw, yd, "symmetric wrapper: y as after the direct call")
 	verifReach("end")
 }
 
-// VerifC01_Cblas128Level3: Symm, Syrk, Syr2k (routine 0..2) over Symmetric + General and
-// Hemm, Herk, Her2k (3..5) over Hermitian + General.
-func VerifC01_Cblas128Level3() {
+// VerifC01_Blas32Symmetric3: Symm, Syrk, Syr2k over Symmetric + General.
+func VerifC01_Blas32Symmetric3() {
 	impl := gonum.Implementation{}
 	maxN := verifParam("wn", 2)
-	r := verifChoose("routine", 0, 5)
-	herm := r >= 3
+	r := verifChoose("routine", 0, 2)
 	ul := verifC01wUplo("uplo")
 	n := verifChoose("n", 0, maxN)
-	mk := verifChoose("mk", 0, maxN) // m (Symm, Hemm) or k (rank-k updates)
+	mk := verifChoose("mk", 0, maxN) // m (Symm) or k (Syrk, Syr2k)
 	padA, padB, padC := verifChoose("padA", 0, 1), verifChoose("padB", 0, 1), verifChoose("padC", 0, 1)
-	alpha, beta := verifC01wCmplx("alpha"), verifC01wCmplx("beta")
-	if r%3 == 0 {
+	alpha, beta := verifFloat32("alpha"), verifFloat32("beta")
+	if r == 0 {
 		s := verifC01wSide("side")
 		m := mk
 		ka := n
@@ -529,18 +545,11 @@ func VerifC01_Cblas128Level3() {
 		aw, ad := verifC01wPair("a", verifC01wMlen(ka, ka, lda, padA))
 		bw, bd := verifC01wPair("b", verifC01wMlen(m, n, ldb, padB))
 		cw, cd := verifC01wPair("c", verifC01wMlen(m, n, ldc, padC))
-		b := General{Rows: m, Cols: n, Data: bw, Stride: ldb}
-		c := General{Rows: m, Cols: n, Data: cw, Stride: ldc}
-		if herm {
-			Hemm(s, alpha, Hermitian{Uplo: ul, N: ka, Data: aw, Stride: lda}, b, beta, c)
-			impl.Zhemm(s, ul, m, n, alpha, ad, lda, bd, ldb, beta, cd, ldc)
-		} else {
-			Symm(s, alpha, Symmetric{Uplo: ul, N: ka, Data: aw, Stride: lda}, b, beta, c)
-			impl.Zsymm(s, ul, m, n, alpha, ad, lda, bd, ldb, beta, cd, ldc)
-		}
-		verifC01wSameAll(aw, ad, "Symm/Hemm: A as after the direct call")
-		verifC01wSameAll(bw, bd, "Symm/Hemm: B as after the direct call")
-		verifC01wSameAll(cw, cd, "Symm/Hemm: C as after the direct call")
+		Symm(s, alpha, Symmetric{Uplo: ul, N: ka, Data: aw, Stride: lda}, General{Rows: m, Cols: n, Data: bw, Stride: ldb}, beta, General{Rows: m, Cols: n, Data: cw, Stride: ldc})
+		impl.Ssymm(s, ul, m, n, alpha, ad, lda, bd, ldb, beta, cd, ldc)
+		verifC01wSameAll(aw, ad, "Symm: A as after the direct call")
+		verifC01wSameAll(bw, bd, "Symm: B as after the direct call")
+		verifC01wSameAll(cw, cd, "Symm: C as after the direct call")
 		verifReach("end")
 		return
 	}
@@ -548,9 +557,6 @@ func VerifC01_Cblas128Level3() {
 	t := blas.NoTrans
 	if verifChoose("trans", 0, 1) == 1 {
 		t = blas.Trans
-		if herm {
-			t = blas.ConjTrans
-		}
 	}
 	ra, ca := n, k
 	if t != blas.NoTrans {
@@ -562,22 +568,36 @@ func VerifC01_Cblas128Level3() {
 	cw, cd := verifC01wPair("c", verifC01wMlen(n, n, ldc, padC))
 	a := General{Rows: ra, Cols: ca, Data: aw, Stride: lda}
 	b := General{Rows: ra, Cols: ca, Data: bw, Stride: ldb}
-	switch r {
-	case 1:
-		Syrk(t, alpha, a, beta, Symmetric{Uplo: ul, N: n, Data: cw, Stride: ldc})
-		impl.Zsyrk(ul, t, n, k, alpha, ad, lda, beta, cd, ldc)
-	case 2:
-		Syr2k(t, alpha, a, b, beta, Symmetric{Uplo: ul, N: n, Data: cw, Stride: ldc})
-		impl.Zsyr2k(ul, t, n, k, alpha, ad, lda, bd, ldb, beta, cd, ldc)
-	case 4:
-		Herk(t, real(alpha), a, real(beta), Hermitian{Uplo: ul, N: n, Data: cw, Stride: ldc})
-		impl.Zherk(ul, t, n, k, real(alpha), ad, lda, real(beta), cd, ldc)
-	default:
-		Her2k(t, alpha, a, b, real(beta), Hermitian{Uplo: ul, N: n, Data: cw, Stride: ldc})
-		impl.Zher2k(ul, t, n, k, alpha, ad, lda, bd, ldb, real(beta), cd, ldc)
+	c := Symmetric{Uplo: ul, N: n, Data: cw, Stride: ldc}
+	if r == 1 {
+		Syrk(t, alpha, a, beta, c)
+		impl.Ssyrk(ul, t, n, k, alpha, ad, lda, beta, cd, ldc)
+	} else {
+		Syr2k(t, alpha, a, b, beta, c)
+		impl.Ssyr2k(ul, t, n, k, alpha, ad, lda, bd, ldb, beta, cd, ldc)
 	}
-	verifC01wSameAll(aw, ad, "rank-k wrapper: A as after the direct call")
-	verifC01wSameAll(bw, bd, "rank-k wrapper: B as after the direct call")
-	verifC01wSameAll(cw, cd, "rank-k wrapper: C as after the direct call")
+	verifC01wSameAll(aw, ad, "Syrk/Syr2k: A as after the direct call")
+	verifC01wSameAll(bw, bd, "Syrk/Syr2k: B as after the direct call")
+	verifC01wSameAll(cw, cd, "Syrk/Syr2k: C as after the direct call")
+	verifReach("end")
+}
+
+// VerifC01_Blas32DDot: the mixed precision wrappers DDot (Dsdot) and SDDot (Sdsdot), blas32 only.
+func VerifC01_Blas32DDot() {
+	impl := gonum.Implementation{}
+	n := verifChoose("n", 0, verifParam("wn", 2)+1)
+	slack := verifChoose("slack", 0, 1)
+	incX, incY := verifC01wIncs()
+	xw, xd := verifC01wPair("x", verifC01wVlen(n, incX, slack))
+	yw, yd := verifC01wPair("y", verifC01wVlen(n, incY, slack))
+	x, y := Vector{N: n, Data: xw, Inc: incX}, Vector{N: n, Data: yw, Inc: incY}
+	alpha := verifFloat32("alpha")
+	if verifChoose("routine", 0, 1) == 0 {
+		verifAssert(verifSame(DDot(x, y), impl.Dsdot(n, xd, incX, yd, incY)), "DDot == Dsdot")
+	} else {
+		verifAssert(verifC01wSameF(SDDot(alpha, x, y), impl.Sdsdot(n, alpha, xd, incX, yd, incY)), "SDDot == Sdsdot")
+	}
+	verifC01wSameAll(xw, xd, "DDot/SDDot: x untouched")
+	verifC01wSameAll(yw, yd, "DDot/SDDot: y untouched")
 	verifReach("end")
 }
